@@ -517,8 +517,9 @@ def build_workload(ctx):
                 reqs.append(mk_case(fes, [n - 1, n - 2]))
             groups.append((fes, reqs))
         work.append((g, groups))
+    fixed, work = work, []
     # random graphs
-    n_graphs = 220 if big else 45
+    n_graphs = (220 if ctx.thorough else 110) if big else 45
     n_cfg = 10 if big else 6
     n_req = 9 if big else 7
     for _ in range(n_graphs):
@@ -534,7 +535,13 @@ def build_workload(ctx):
                 reqs.append(mk_case(fes, [g["n"]]))      # malformed: unknown target -> KeyError
             groups.append((fes, reqs))
         work.append((g, groups))
-    return work
+    # interleave: a fixed shape after every third random graph, so that a time limit cuts both kinds evenly
+    out = []
+    for i, w_ in enumerate(work):
+        out.append(w_)
+        if i % 3 == 2 and fixed:
+            out.append(fixed.pop(0))
+    return out + fixed
 
 
 def run(ctx):
@@ -554,15 +561,23 @@ def run(ctx):
     os.makedirs(TMP, exist_ok=True)
     try:
         unit_should_save(ctx)
-        _run_main(ctx)
+        try:
+            _run_main(ctx)
+        except I.MasterFailed as e:
+            g = copy.deepcopy(e.graph)
+            for p in g["plugins"]:
+                p["sw"] = [3] * len(p["sw"])
+            ctx.violation("exec", "computing and saving a data type from empty storage fails (single-thread processor): %s" % e,
+                          {"input": {"graph": g, "case": mk_case([fe([])], [e.d]), "entry": "make",
+                                     "processor": "single_thread", "from_scratch": True}})
     finally:
         shutil.rmtree(TMP, ignore_errors=True)
 
 
 def _run_main(ctx):
     rng = ctx.rng
-    t_start = time.time()
-    budget = (24 * 60) if ctx.thorough else 135      # seconds for the implementation side
+    t_start = ctx.t0                                   # wall clock of the whole check, build included
+    budget = (24 * 60) if ctx.thorough else 120      # seconds for plan + exec units (safety net; sizes are count-based)
     work = build_workload(ctx)
     # ---- model side: all plan lines in one batch
     lines, index = [], []
@@ -573,6 +588,7 @@ def _run_main(ctx):
                 lines.append(enc_line(g, rq, 0))
                 lines.append(enc_line(g, rq, 1))
     mout = lib.run_model_parallel("C11", lines)
+    ctx.notes.append("timing: workload of %d model lines generated and evaluated at %.0fs" % (len(lines), time.time() - t_start))
     model = {}
     for k, key in enumerate(index):
         model[key] = (mout[2 * k], mout[2 * k + 1])
@@ -595,7 +611,7 @@ def _run_main(ctx):
         w = Work(g, gi)
         try:
             for ci, (fes, reqs) in enumerate(groups):
-                if time.time() - t_start > budget * 0.55 and gi >= len(FIXED_GRAPHS):
+                if time.time() - t_start > budget * 0.6 or len(ctx.violations) >= 20:
                     stop = True
                     break
                 cfg_dir = os.path.join(w.dir, "cfg")
@@ -640,6 +656,7 @@ def _run_main(ctx):
         finally:
             w.close()
     ctx.count("plan", n_plan, len(nontriv), dist)
+    ctx.notes.append("timing: plan unit finished at %.0fs" % (time.time() - t_start))
     ctx.coverage.setdefault("wiring", {}).update(wiring_stats)
     ctx.notes.append("plan unit: %d graphs of %d generated were run inside the time budget" % (n_graph_done, len(work)))
     if lines:
@@ -653,15 +670,17 @@ def _run_main(ctx):
     # ---- end-to-end executions
     _unit_exec(ctx, work, model, exec_pool, t_start, budget)
 
+    ctx.notes.append("timing: exec unit finished at %.0fs" % (time.time() - t_start))
     # ---- D5: dynamic confirmation on the real threaded processor
     _unit_d5(ctx, work, d5_cases, code_wiring)
 
     # ---- multi-target policy finding
     _unit_multi_target(ctx)
 
+    ctx.notes.append("timing: finding units finished at %.0fs" % (time.time() - t_start))
     # ---- kernel cross-check of the extraction
     eqs = []
-    for (g, rq, mode, mo) in crosscheck[:120 if not ctx.thorough else 400]:
+    for (g, rq, mode, mo) in crosscheck[:80 if not ctx.thorough else 400]:
         m = parse_model(mo)
         if not m["err"]:
             # savers in the driver's order
@@ -781,15 +800,15 @@ def check_exec_against_spec(graph, case, entry, ob):
     return None
 
 
-def _exec_one(w, g, rq, entry, processor, tag="x"):
+def _exec_one(w, g, rq, entry, processor, tag="x", timeout=8):
     paths = I.make_dirs(rq, w.master, w.dirs, os.path.join(w.dir, tag))
-    st = I.make_context(g, w.classes, rq, paths)
+    st = I.make_context(g, w.classes, rq, paths, timeout=timeout)
     return I.run_exec(st, g, rq, paths, entry=entry, processor=processor)
 
 
 def _unit_exec(ctx, work, model, pool, t_start, budget):
     rng = ctx.rng
-    n_want = 6000 if ctx.thorough else 900
+    n_want = 6000 if ctx.thorough else 600
     pool = list(pool)
     rng.shuffle(pool)
     pool = sorted(pool[:n_want])
@@ -799,7 +818,7 @@ def _unit_exec(ctx, work, model, pool, t_start, budget):
     cur_gi, w = None, None
     try:
         for (gi, ci, ri) in pool:
-            if time.time() - t_start > budget * 0.9:
+            if time.time() - t_start > budget * 0.9 or len(ctx.violations) >= 20:
                 ctx.notes.append("exec unit stopped at the time budget after %d cases" % n)
                 break
             g, groups = work[gi]
@@ -854,6 +873,10 @@ def _unit_exec(ctx, work, model, pool, t_start, budget):
                 r2 = check_exec_against_spec(g, rq, entry, ob2)
                 if not r2 and ob2["multi_sender_mailboxes"]:
                     r2 = "mailboxes with several sending threads: %s" % ob2["multi_sender_mailboxes"]
+                if r2 and "imeout" in (str(ob2.get("exc")) + str(ob2.get("msg"))):
+                    # a mailbox timeout on a loaded machine is not evidence about the planner
+                    dist["threaded_timeouts_ignored"] = dist.get("threaded_timeouts_ignored", 0) + 1
+                    r2 = None
                 if r2:
                     ctx.violation("exec_threaded", "threaded processor: %s" % r2,
                                   {"input": dict(inp, processor="threaded_mailbox"), "impl": ob2, "model": m1})
@@ -887,7 +910,8 @@ def replay_d5(graph, case, idx=900):
     w = Work(graph, idx)
     try:
         static_reason, wires = static_threaded_origin(w, graph, case)
-        ob = _exec_one(w, graph, case, "get_array", "threaded_mailbox", tag="d5")
+        # (a run that survives the double sender leaves a starved thread waiting for the mailbox timeout)
+        ob = _exec_one(w, graph, case, "get_array", "threaded_mailbox", tag="d5", timeout=2)
         ob["static_wiring"] = wires
         dyn = check_exec_against_spec(graph, case, "get_array", ob)
         if not dyn and ob["multi_sender_mailboxes"]:
@@ -911,7 +935,7 @@ def _unit_d5(ctx, work, d5_cases, code_wiring):
     bad = [c for c in d5_cases if c[3]]
     dist = {"cases_with_loader_fed_sibling": len(d5_cases), "static_double_sender": len(bad), "dynamic_runs": 0,
             "dynamic_failures": 0}
-    for (g, rq, wires, why) in d5_cases[: (40 if ctx.thorough else 8)]:
+    for (g, rq, wires, why) in d5_cases[: (40 if ctx.thorough else 4)]:
         if len(set(rq["targets"])) != 1:
             continue
         reason, ob, r1 = replay_d5(g, dict(rq, targets=[rq["targets"][0]]), idx=901)
@@ -1006,6 +1030,15 @@ def replay(ctx, obj):
                     2: bool(inp["in_targets"]), 3: True}[inp["sw"]]
             return 0 if res == want else 1
         g, case = inp["graph"], inp["case"]
+        if inp.get("from_scratch"):
+            try:
+                Work(g, 906).close()
+            except I.MasterFailed as e:
+                print("impl:", e)
+                print("property: violated (nothing stored, nothing forbidden, yet the request fails)")
+                return 1
+            print("property: holds")
+            return 0
         if obj.get("unit") == "saves_by_policy_user_targets":
             reason, ob = replay_mt(g, case, inp.get("entry", "make"))
             print("impl:", {k: ob.get(k) for k in ("err", "msg", "counts", "before", "after")})
